@@ -188,6 +188,14 @@ pub fn cmd(_args: &[String]) {
                     Err(p) => ("panic".to_string(), String::new(), String::new(), panic_message(&p)),
                 }
             }
+            // front end only (C09): typecheck, report every error with its span and whether the errors render
+            "frontend" => {
+                let vm = entry.0.clone();
+                match catch_unwind(AssertUnwindSafe(|| crate::frontend::check(&vm, src))) {
+                    Ok(v) => ("ok".to_string(), v.to_string(), String::new(), String::new()),
+                    Err(p) => ("panic".to_string(), String::new(), String::new(), panic_message(&p)),
+                }
+            }
             // parse only: dump of the AST (positions kept; the driver normalises)
             "parse" => match catch_unwind(AssertUnwindSafe(|| crate::parse::dump_raw(src))) {
                 Ok(Ok(d)) => ("ok".to_string(), d, String::new(), String::new()),
